@@ -6,13 +6,13 @@ from gen import common
 
 
 def _reg():
-    from gen import api, btcp, btls, framing, life, relay, tconnect, tp, ux, xpoll, utls, timer, dnsq
+    from gen import api, btcp, btls, framing, life, relay, tconnect, tp, ux, xpoll, utls, timer, dnsq, attrtree
     return {
         "unit_api": ("api", api.build), "unit_btcp": ("btcp", btcp.build), "unit_btls": ("btls", btls.build),
         "unit_framing_tcp": ("framing", lambda: framing.build("tcp")), "unit_framing_tls": ("framing", lambda: framing.build("tls")),
         "unit_life": ("life", life.build_unit), "unit_relay": ("relay", relay.build_unit), "unit_tconnect": ("tconnect", tconnect.build),
         "unit_tp": ("tp", tp.build), "unit_ux": ("ux", ux.build), "unit_xpoll": ("xpoll", xpoll.build), "unit_utls": ("utls", utls.build),
-        "unit_timer": ("timer", timer.build), "unit_dnsq": ("dnsq", dnsq.build),
+        "unit_timer": ("timer", timer.build), "unit_dnsq": ("dnsq", dnsq.build), "unit_attrtree": ("attrtree", attrtree.build),
     }
 
 
